@@ -89,6 +89,21 @@ def abstract(kind):
             a.add_child(para(20))
     elif kind == "para-empty":
         a.add_child(Node("para"))
+    elif kind in ("para-list19", "para-list20"):
+        # text nested INSIDE a paragraph: abstract/para/itemizedlist/listitem/para (and an ordered list inside a list item)
+        n = int(kind[-2:])
+        p = para(8)
+        il = Node("itemizedlist")
+        li = Node("listitem")
+        li.add_child(para(7, 2))
+        ol = Node("orderedlist")
+        li2 = Node("listitem")
+        li2.add_child(para(n - 15, 4))
+        ol.add_child(li2)
+        li.add_child(ol)
+        il.add_child(li)
+        p.add_child(il)
+        a.add_child(p)
     return a
 
 
